@@ -33,9 +33,9 @@ def any_cfg(cfg): return True
 PROPS = {
     "C01": dict(families=["elem", "copy", "iter_nth", "random"], keys=["out", "ret", "len", "snap"], cfgs=any_cfg,
                 release=False, leak_free=True),
-    "C02": dict(families=["range", "random"], keys=["out", "ret", "len", "snap"], cfgs=any_cfg,
+    "C02": dict(families=["range", "range_nth", "random"], keys=["out", "ret", "len", "snap"], cfgs=any_cfg,
                 release=True, leak_free=True),
-    "C03": dict(families=["elem", "range", "clone", "lazyfuse", "dropfuse", "liar", "random"], keys=["ev_user", "snap"], cfgs=any_cfg,
+    "C03": dict(families=["elem", "range", "range_nth", "clone", "lazyfuse", "dropfuse", "liar", "random"], keys=["ev_user", "snap"], cfgs=any_cfg,
                 release=False, leak_free=True),
     "C04": dict(families=["types"], keys=["out", "ret", "len", "snap", "ev_user"], cfgs=any_cfg, release=False, leak_free=False),
     "C13": dict(families=["handles", "elem", "iter_nth"], keys=["out", "ret", "len", "snap", "ev_user"], cfgs=any_cfg, release=False, leak_free=True),
@@ -57,7 +57,7 @@ PROPS = {
     "C11": dict(families=["elem", "range", "clone", "views"], keys=["out", "ret", "len", "cap", "snap", "ev_alloc"],
                 cfgs=is_stack, release=False, leak_free=True),
     "C12": dict(families=["views", "placement"], keys=["out", "ret", "len", "snap"], cfgs=any_cfg, release=False, leak_free=True),
-    "C14": dict(families=["iter", "iter_clone", "iter_nth", "cursor_max"], keys=["out", "ret"], cfgs=any_cfg, release=False, leak_free=True),
+    "C14": dict(families=["iter", "iter_clone", "iter_nth", "range_nth", "cursor_max"], keys=["out", "ret"], cfgs=any_cfg, release=False, leak_free=True),
     "C18": dict(families=["capacity", "elem", "range", "clone", "parts", "random"], keys=["out", "cap", "ev_alloc"],
                 cfgs=is_heap, release=True, leak_free=True),
     # the harness is linked against any_vec built with default features disabled; the same cases also run
@@ -132,6 +132,8 @@ def compare_case(pid, spec, cid, cfg, steps, family, mlines, ilines):
         if spec.get("leak_free"):
             # a step with an armed fuse / lying iterator / forgotten handle may leak (and only leak)
             may_leak = may_leak or family in ("fuse", "liar", "forget", "lazyfuse", "clonefuse", "dropfuse")
+            # a leaked iterator / forgotten handle leaks what it still owns (and only leaks)
+            may_leak = may_leak or any("forget" in st for st in steps)
             if e.get("live", "-") not in ("-", "0") and not may_leak:
                 return dict(step=n, key="leak", expected="live=0", observed="live=" + e["live"])
             if e.get("blocks", "0") != "0":
